@@ -119,6 +119,16 @@ theorem getElem?_setRange_outside (bs : List UInt8) (a : Nat) (new : List UInt8)
     simp only [List.length_append, List.length_take, Nat.min_eq_left ha, List.getElem?_drop]
     congr 1; omega
 
+/-- a byte inside the written range is the written byte -/
+theorem getElem?_setRange_inside (bs : List UInt8) (a : Nat) (new : List UInt8) (i : Nat)
+    (h : a + new.length ≤ bs.length) (hi : i < new.length) :
+    (setRange bs a new)[a + i]? = new[i]? := by
+  have ha : a ≤ bs.length := by omega
+  unfold setRange
+  rw [List.getElem?_append_left (by simp; omega)]
+  rw [List.getElem?_append_right (by simp; omega)]
+  simp [List.length_take, Nat.min_eq_left ha]
+
 /-- a slice disjoint from the written range is unchanged -/
 theorem slice_setRange_disjoint (bs : List UInt8) (a : Nat) (new : List UInt8) (c d : Nat)
     (h : a + new.length ≤ bs.length) (hd : d ≤ a ∨ a + new.length ≤ c) (hcd : c ≤ d) :
